@@ -42,6 +42,7 @@ func (g ghostFile) get(key string, s Sort) string {
 	return sel(sel(g.ex.comp(g.st, key, s), z64()), g.name)
 }
 func (g ghostFile) set(key string, s Sort, v string) {
+	g.ex.checkGhostAssign(g.st, key, z64(), "file("+key+")", token.NoPos)
 	cur := g.ex.comp(g.st, key, s)
 	g.ex.setComp(g.st, key, s, sto(cur, z64(), sto(sel(cur, z64()), g.name, v)))
 }
@@ -300,4 +301,107 @@ func scannerText(ex *Exec, st *State, fr *Frame, callee *ssa.Function, args []Va
 	ex.vc.DeclareFun("ScannerContent", []Sort{SRef}, BV(64))
 	ex.vc.DeclareFun("FileLine", []Sort{BV(64), BV(64)}, SStr)
 	return Sc{app("FileLine", app("ScannerContent", h), app("bvsub", cur, bvInt(1, 64))), SStr}
+}
+
+// Random-access files: (*os.File).ReadAt / WriteAt on a handle. The bytes
+// behind a handle are the ghost pair (HandleBytes[h] : Array BV64 BV8,
+// HandleLen[h]); bytes at or beyond the length are zero (they are
+// unobservable until the file is extended, and an extension past the end
+// leaves a zero-filled gap). Only constant, small buffer lengths are modelled.
+const handleBytesKey = "GhostHandleBytes"
+const handleLenKey = "GhostHandleLen"
+
+func handleBytesSort() Sort { return ArrS(SRef, ArrS(BV(64), BV(8))) }
+func handleLenSort() Sort   { return ArrS(SRef, BV(64)) }
+
+func (ex *Exec) handleGhost(st *State, h string) (bytes, ln string) {
+	b := sel(ex.comp(st, handleBytesKey, handleBytesSort()), h)
+	l := sel(ex.comp(st, handleLenKey, handleLenSort()), h)
+	ex.assume(st, and(app("bvsle", z64(), l), app("bvsle", l, bvInt(1<<40, 64))))
+	ex.assume(st, fmt.Sprintf("(forall ((qo (_ BitVec 64))) (! (=> (bvsge qo %s) (= (select %s qo) #x00)) :pattern ((select %s qo))))", l, b, b))
+	ex.vc.Trust("random-access file model: ReadAt/WriteAt act on ghost bytes per handle; bytes beyond the end are zero; a short read returns io.EOF")
+	return b, l
+}
+
+func (ex *Exec) ioEOF() string {
+	ex.vc.DeclareOnce("Glob_io_EOF", SRef)
+	ex.vc.Assume(not(eq("Glob_io_EOF", z64())))
+	return "Glob_io_EOF"
+}
+
+func fsReadAt(ex *Exec, st *State, fr *Frame, callee *ssa.Function, args []Val, c *ssa.CallCommon, pos token.Pos) Val {
+	h := sc(args[0]).T
+	off := sc(args[2]).T
+	sv := ex.viewSlice(args[1], c.Args[1].Type())
+	n, ok := constBV(sv.ln)
+	res := ex.freshResults(st, c.Signature().Results(), "readat").(*Agg)
+	errT := sc(res.F[1]).T
+	if !ok || n > 64 {
+		ex.havocArg(st, args[1], c.Args[1].Type())
+		return res
+	}
+	bytes, ln := ex.handleGhost(st, h)
+	full := ex.vc.Bind("rdfull", SBool, and(app("bvsle", z64(), off), app("bvsle", app("bvadd", off, bvInt(int64(n), 64)), ln)))
+	eof := ex.ioEOF()
+	ex.assume(st, implies(not(full), not(eq(errT, z64()))))
+	ex.assume(st, implies(eq(errT, eof), not(full)))
+	// a short read at the end of the file is reported as io.EOF unless another error occurs
+	ex.ghostBumpIf(st, "$ioFail", and(not(eq(errT, z64())), not(eq(errT, eof))))
+	ex.havocArg(st, args[1], c.Args[1].Type())
+	for i := uint64(0); i < n; i++ {
+		cur := sc(ex.load(st, sv.elemAddr(bvU(i, 64)))).T
+		ex.assume(st, implies(eq(errT, z64()), eq(cur, sel(bytes, app("bvadd", off, bvU(i, 64))))))
+	}
+	ex.assume(st, implies(eq(errT, z64()), eq(sc(res.F[0]).T, bvU(n, 64))))
+	return res
+}
+
+func fsWriteAt(ex *Exec, st *State, fr *Frame, callee *ssa.Function, args []Val, c *ssa.CallCommon, pos token.Pos) Val {
+	ex.ghostBump(st, "$fsWrites")
+	h := sc(args[0]).T
+	off := sc(args[2]).T
+	sv := ex.viewSlice(args[1], c.Args[1].Type())
+	n, ok := constBV(sv.ln)
+	res := ex.freshResults(st, c.Signature().Results(), "writeat").(*Agg)
+	errT := sc(res.F[1]).T
+	bytes, ln := ex.handleGhost(st, h)
+	ex.checkGhostAssign(st, handleBytesKey, h, "the file behind the handle", pos)
+	bk := ex.comp(st, handleBytesKey, handleBytesSort())
+	lk := ex.comp(st, handleLenKey, handleLenSort())
+	if !ok || n > 64 {
+		ex.setComp(st, handleBytesKey, handleBytesSort(), sto(bk, h, ex.vc.Fresh("hbytes", ArrS(BV(64), BV(8)))))
+		ex.setComp(st, handleLenKey, handleLenSort(), sto(lk, h, ex.vc.Fresh("hlen", BV(64))))
+		return res
+	}
+	nb := bytes
+	for i := uint64(0); i < n; i++ {
+		nb = sto(nb, app("bvadd", off, bvU(i, 64)), sc(ex.load(st, sv.elemAddr(bvU(i, 64)))).T)
+	}
+	end := app("bvadd", off, bvU(n, 64))
+	okc := and(eq(errT, z64()), app("bvsle", z64(), off))
+	ex.setComp(st, handleBytesKey, handleBytesSort(), sto(bk, h, ite(okc, nb, ex.vc.Fresh("hbytes", ArrS(BV(64), BV(8))))))
+	ex.setComp(st, handleLenKey, handleLenSort(), sto(lk, h, ite(okc, ite(app("bvsgt", end, ln), end, ln), ex.vc.Fresh("hlen", BV(64)))))
+	ex.assume(st, implies(eq(errT, z64()), eq(sc(res.F[0]).T, bvU(n, 64))))
+	return res
+}
+
+// glow.SendUDPReport(report, location): one datagram is handed to the network
+// (ghost log $udp: UdpLog[k] = identity of the k-th datagram, $udpCount) or the
+// call fails and nothing is sent.
+func sendUDPReport(ex *Exec, st *State, fr *Frame, callee *ssa.Function, args []Val, c *ssa.CallCommon, pos token.Pos) Val {
+	ex.vc.Trust("glow.SendUDPReport: on success exactly one datagram with the given bytes is sent (ghost log), on failure none")
+	ex.blockingCall(st, fr, "glow.SendUDPReport", pos)
+	id := ex.bytesIdAny(st, args[0], c.Args[0].Type())
+	e := ex.vc.Fresh("udperr", SRef)
+	ck := "Ghost_udpCount"
+	s := ArrS(SRef, BV(64))
+	cnt := sel(ex.comp(st, ck, s), z64())
+	ex.assume(st, app("bvsle", z64(), cnt))
+	logS := ArrS(SRef, ArrS(BV(64), BV(64)))
+	ex.checkGhostAssign(st, "Ghost_udpCount", z64(), "$udp (the datagram log)", pos)
+	lg := ex.comp(st, "Ghost_udpLog", logS)
+	okc := eq(e, z64())
+	ex.setComp(st, "Ghost_udpLog", logS, sto(lg, z64(), ite(okc, sto(sel(lg, z64()), cnt, id), sel(lg, z64()))))
+	ex.setComp(st, ck, s, sto(ex.comp(st, ck, s), z64(), ite(okc, app("bvadd", cnt, bvInt(1, 64)), cnt)))
+	return Sc{e, SRef}
 }
